@@ -371,8 +371,9 @@ fn c12_time_and_restart_responses() {
             let r = s.handle_delay_measure(seq);
             check_empty_solicited(&r, seq);
             assert!(r.header.iin == Iin::default());
-            let body = s.sol_tx_buffer.get(ResponseHeader::LENGTH + r.size).unwrap();
-            assert!(r.size == 6);
+            // Response::size counts the 4 header octets (the header itself is written when the response is sent)
+            assert!(r.size == ResponseHeader::LENGTH + 6);
+            let body = s.sol_tx_buffer.get(r.size).unwrap();
             let objs = &body[ResponseHeader::LENGTH..];
             assert!(objs[0] == 52 && objs[1] == 2 && objs[2] == 0x07 && objs[3] == 1);
             assert!(u16::from_le_bytes([objs[4], objs[5]]) == delay);
@@ -398,8 +399,8 @@ fn c12_time_and_restart_responses() {
             if k == 0 {
                 assert!(r.size == 0 && r.header.iin.iin2.get_no_func_code_support());
             } else {
-                assert!(r.size == 6 && r.header.iin == Iin::default());
-                let body = s.sol_tx_buffer.get(ResponseHeader::LENGTH + r.size).unwrap();
+                assert!(r.size == ResponseHeader::LENGTH + 6 && r.header.iin == Iin::default());
+                let body = s.sol_tx_buffer.get(r.size).unwrap();
                 let objs = &body[ResponseHeader::LENGTH..];
                 assert!(objs[0] == 52 && objs[1] == k && objs[2] == 0x07 && objs[3] == 1);
                 assert!(u16::from_le_bytes([objs[4], objs[5]]) == v);
@@ -448,8 +449,9 @@ fn unsol_case(objects: &[u8], expect_classes: (bool, bool, bool), expect_error: 
 
 // @harness c12_unsolicited_enable_all_classes
 // @props C12
-// @tier quick
-// @timeout 900
+// @tier thorough
+// @class attempt
+// @timeout 3600
 // @mem 4
 // @units OutstationSession::handle_enable_or_disable_unsolicited, HeaderCollection::{parse,iter}
 // @bounds headers g60v2 g60v3 g60v4 (qualifier 06), enable or disable, any previous class set, unsolicited supported or not, any sequence
@@ -460,8 +462,8 @@ fn c12_unsolicited_enable_all_classes() {
 }
 // @harness c12_unsolicited_bad_header_first
 // @props C12
-// @tier quick
-// @timeout 900
+// @tier thorough
+// @timeout 3600
 // @mem 4
 // @units OutstationSession::handle_enable_or_disable_unsolicited
 // @bounds headers g60v1 (class 0: not acceptable) then g60v3: the rejection is reported although a later header is fine, and the good header still takes effect
@@ -472,8 +474,8 @@ fn c12_unsolicited_bad_header_first() {
 }
 // @harness c12_unsolicited_bad_header_last
 // @props C12
-// @tier quick
-// @timeout 900
+// @tier thorough
+// @timeout 3600
 // @mem 4
 // @units OutstationSession::handle_enable_or_disable_unsolicited
 // @bounds headers g60v2 then g30v0 (not a class object): rejection reported, class 1 still switched
@@ -483,12 +485,37 @@ fn c12_unsolicited_bad_header_last() {
     unsol_case(&[60, 2, 0x06, 30, 0, 0x06], (true, false, false), true)
 }
 
+// @harness c12_unsolicited_one_class
+// @props C12
+// @tier quick
+// @timeout 1800
+// @mem 4
+// @units OutstationSession::handle_enable_or_disable_unsolicited, HeaderCollection::{parse,iter}
+// @bounds one header g60v3 (qualifier 06): enable or disable, any previous class set, unsolicited supported or not, any sequence: exactly class 2 is switched; response shape
+#[kani::proof]
+#[kani::unwind(8)]
+fn c12_unsolicited_one_class() {
+    unsol_case(&[60, 3, 0x06], (false, true, false), false)
+}
+// @harness c12_unsolicited_one_bad_header
+// @props C12
+// @tier quick
+// @timeout 1800
+// @mem 4
+// @units OutstationSession::handle_enable_or_disable_unsolicited
+// @bounds one header g60v1 (class 0 is not an event class): rejected with NO_FUNC_CODE_SUPPORT, nothing switched
+#[kani::proof]
+#[kani::unwind(8)]
+fn c12_unsolicited_one_bad_header() {
+    unsol_case(&[60, 1, 0x06], (false, false, false), true)
+}
+
 // @harness c12_object_parse_error_to_iin2
 // @props C12
 // @tier quick
 // @timeout 300
-// @units impl From<ObjectParseError> for Iin2, OutstationSession::get_iin2
-// @bounds every kind of object parse error (payload values arbitrary) maps to a NON-EMPTY IIN2 (a malformed request is never answered with a clean response); unknown object => OBJECT_UNKNOWN; objects on a function that forbids them => PARAMETER_ERROR
+// @units impl From<ObjectParseError> for Iin2
+// @bounds every kind of object parse error (payload values arbitrary) maps to a NON-EMPTY IIN2 (a malformed request is never answered with a clean response); unknown object => OBJECT_UNKNOWN
 #[kani::proof]
 #[kani::unwind(4)]
 fn c12_object_parse_error_to_iin2() {
@@ -512,7 +539,20 @@ fn c12_object_parse_error_to_iin2() {
     if k == 0 {
         assert!(iin2.get_object_unknown());
     }
-    // functions that carry no objects: any object header is a parameter error
+    kani::cover!(k == 9);
+    kani::cover!(k == 0);
+}
+
+// @harness c12_objects_where_forbidden
+// @props C12
+// @tier quick
+// @timeout 900
+// @mem 4
+// @units OutstationSession::get_iin2, FunctionCode::get_function_info, HeaderCollection::{parse,is_empty}
+// @bounds DELAY_MEASURE and RECORD_CURRENT_TIME (functions that carry no objects) with one object header (constant bytes g60v2/06) => PARAMETER_ERROR; without objects => clean
+#[kani::proof]
+#[kani::unwind(6)]
+fn c12_objects_where_forbidden() {
     let objs = [60u8, 2, 0x06];
     let hc = HeaderCollection::parse(ParseOptions::parse_everything(), FunctionCode::Read, &objs).unwrap();
     assert!(OutstationSession::get_iin2(FunctionCode::DelayMeasure, hc).get_parameter_error());
@@ -520,8 +560,8 @@ fn c12_object_parse_error_to_iin2() {
     let empty: [u8; 0] = [];
     let none = HeaderCollection::parse(ParseOptions::parse_everything(), FunctionCode::Read, &empty).unwrap();
     assert!(OutstationSession::get_iin2(FunctionCode::DelayMeasure, none).value == 0);
-    kani::cover!(k == 9);
-    kani::cover!(k == 0);
+    assert!(OutstationSession::get_iin2(FunctionCode::Write, hc).value == 0);
+    kani::cover!(true);
 }
 
 // @harness c18_write_at_last_recorded_time
@@ -530,7 +570,7 @@ fn c12_object_parse_error_to_iin2() {
 // @timeout 900
 // @mem 4
 // @units OutstationSession::{handle_record_current_time, handle_write_at_last_recorded_time}, CountSequence::single, Timestamp::checked_add, OutstationApplication::write_absolute_time
-// @bounds LAN time sync, outstation half: RECORD_CURRENT_TIME at any instant t0, WRITE g50v3 with any 48-bit time T at any later-or-earlier instant t1 (difference < 2^20 s): the application receives exactly T + (t1 - t0) in ms, or PARAMETER_ERROR when no time was recorded, the clock went backwards or the sum leaves 48 bits; the record is consumed; the application's verdict maps to IIN2
+// @bounds LAN time sync, outstation half: RECORD_CURRENT_TIME at any instant t0, WRITE g50v3 with any 48-bit time T at any later instant t1 = t0 + (0..2^20 s, ms resolution) or one second earlier (clock error): the application receives exactly T + (t1 - t0) in ms, or PARAMETER_ERROR when no time was recorded, the clock went backwards or the sum leaves 48 bits; the record is consumed; the application's verdict maps to IIN2
 // @stubs tokio::time::Instant::now -> harness clock
 #[kani::proof]
 #[kani::unwind(8)]
@@ -549,13 +589,20 @@ fn c18_write_at_last_recorded_time() {
         set_now(s0, n0);
         let _ = s.handle_record_current_time(Sequence::new(0));
     }
-    // the WRITE arrives at t1
-    let s1: u32 = kani::any();
-    let ms1: u32 = kani::any();
-    kani::assume(ms1 < 1000 && s1 < (1 << 30));
-    // keep sub-millisecond parts equal so that the expected value is exact (the code truncates to ms anyway)
-    let n1 = ms1 * 1_000_000 + n0 % 1_000_000;
-    set_now(s1, n1);
+    // the WRITE arrives ds seconds + dms milliseconds later (same sub-millisecond phase, so the expected value is exact),
+    // or - clock error - one second EARLIER
+    let backwards: bool = kani::any();
+    let ds: u32 = kani::any();
+    let dms: u32 = kani::any();
+    kani::assume(ds < (1 << 20) && dms < 1000);
+    if backwards {
+        kani::assume(s0 >= 1);
+        set_now(s0 - 1, n0);
+    } else {
+        let sum = n0 + dms * 1_000_000;
+        let (carry, nn) = if sum >= 1_000_000_000 { (1, sum - 1_000_000_000) } else { (0, sum) };
+        set_now(s0 + ds + carry, nn);
+    }
     let t: u64 = kani::any();
     kani::assume(t <= Timestamp::MAX_VALUE);
     let wire = t.to_le_bytes();
@@ -564,13 +611,11 @@ fn c18_write_at_last_recorded_time() {
     let seq: CountSequence<Group50Var3> = CountSequence::parse(1, &mut cursor).unwrap();
     let iin2 = s.handle_write_at_last_recorded_time(seq);
 
-    let t0_ns = s0 as u128 * 1_000_000_000 + n0 as u128;
-    let t1_ns = s1 as u128 * 1_000_000_000 + n1 as u128;
-    if !recorded || t1_ns < t0_ns {
+    if !recorded || backwards {
         assert!(iin2.get_parameter_error());
         assert!(unsafe { APP_TIME_WRITTEN }.is_none());
     } else {
-        let elapsed_ms = ((t1_ns - t0_ns) / 1_000_000) as u64;
+        let elapsed_ms = ds as u64 * 1000 + dms as u64;
         let expect = t + elapsed_ms;
         if expect > Timestamp::MAX_VALUE {
             assert!(iin2.get_parameter_error() && unsafe { APP_TIME_WRITTEN }.is_none());
@@ -585,7 +630,7 @@ fn c18_write_at_last_recorded_time() {
             kani::cover!(elapsed_ms > 0);
         }
     }
-    kani::cover!(recorded && t1_ns < t0_ns);
+    kani::cover!(recorded && backwards);
     std::mem::forget(s);
     std::mem::forget(db);
 }
